@@ -102,6 +102,10 @@ pub struct Case {
     /// `--files-from` only: the list contains an undecodable line before the n-th entry
     #[serde(default, skip_serializing_if = "Option::is_none")]
     pub list_poison: Option<usize>,
+    /// additional path arguments that cannot be expanded or opened (an invalid glob pattern, a
+    /// directory that does not exist): each is a failing member of the batch
+    #[serde(default, skip_serializing_if = "Vec::is_empty")]
+    pub bogus_paths: Vec<String>,
     /// `--files-from` only: the list arrives through a pipe (`--files-from /dev/stdin`), so it
     /// can be read exactly once
     #[serde(default, skip_serializing_if = "std::ops::Not::not")]
@@ -389,6 +393,7 @@ impl Case {
                     sc.real_tree = true;
                 }
             }
+            sc.argv.extend(self.bogus_paths.iter().cloned());
             sc.files = self.files.clone();
         }
         sc.workers = self.workers.max(1);
@@ -674,6 +679,10 @@ impl Case {
         }
 
         // exit status and streams, over the whole invocation
+        if !self.bogus_paths.is_empty() {
+            any_must_fail = true;
+            stats.probe("c16_bogus_path_argument_in_batch");
+        }
         if any_must_fail {
             if !exit_nonzero(&r) {
                 out.push(Finding {
@@ -1087,6 +1096,10 @@ impl Case {
                 }
                 judged_logs.extend(ar.logs.iter());
             }
+        }
+        if !self.bogus_paths.is_empty() {
+            any_failed = true;
+            stats.probe("c18_bogus_path_argument_in_batch");
         }
         if exit_nonzero(&r) != any_failed {
             out.push(Finding {
